@@ -121,11 +121,21 @@ func (ex *Exec) applyUpdates(st *State, c *FuncContract, env *Env) {
 			vc.fatalf("ghost update %s = %s: %s", u.Ghost, u.Text, strings.Join(env.errs, "; "))
 			return
 		}
-		st.ghost[u.Ghost] = v.T
+		st.ghost[u.Ghost] = ex.nameLarge(st, "ghost_"+u.Ghost, v.T)
 		if st.writes != nil {
 			st.writes.ghost[u.Ghost] = true
 		}
 	}
+}
+
+// nameLarge: a large term is given a name (fresh constant equal to it), so that later terms built from it stay small.
+func (ex *Exec) nameLarge(st *State, what string, t Term) Term {
+	if len(t.S) < 400 {
+		return t
+	}
+	n := ex.vc.fresh(what, t.Sort)
+	st.assume(app("=", n.S, t.S))
+	return n
 }
 
 // checkImplements: `requires implements(param, Spec)` at a call site. The argument must
